@@ -72,7 +72,8 @@ func (Prop) Assumptions() []string {
 // ---------------------------------------------------------------------------
 // generation
 
-var lits = []string{"nil", "true", "false", "5", "-3", "1.5", `"s"`, `""`, `"12"`, "[1, 2]", `{"a": 1}`, "[]", `"2024-01-02 03:04:05"`}
+// (the last two evaluate to "no value": an attribute expression and a call without a result)
+var lits = []string{"nil", "true", "false", "5", "-3", "1.5", `"s"`, `""`, `"12"`, "[1, 2]", `{"a": 1}`, "[]", `"2024-01-02 03:04:05"`, "zz.attr", "drop_key(nokey)"}
 
 func genOp(r *simrt.RNG, renameBias float64) Op {
 	keys := []string{"f1", "t1", "message", "_", "n1", "n2", "`sp k`"}
